@@ -149,6 +149,16 @@ RECIPES.update({
 
 RECIPES.update({
     'vegas_chkpt_alpha': dict(unit='chkpt', name='alpha', cls='vegas_chkpt', self='vegas_chkpt'),
+    'multi_channel_chkpt_beta': dict(unit='chkpt', name='beta', cls='multi_channel_chkpt', self='multi_channel_chkpt'),
+    'multi_channel_chkpt_min_weight': dict(unit='chkpt', name='min_weight', cls='multi_channel_chkpt', self='multi_channel_chkpt'),
+    'mpi_plain': dict(unit='mpidrv', name='mpi_plain', sel='vpinst::PCb', allow_unsigned_wrap=True, opts=dict(_DRV_OPTS, rename={'vp_rng_chkpt_plain_result_copy': 'vp_chk_copy_abs'},
+        operator_calls={('vpinst_PCb', 'operator()'): (lambda em, n, args, dst: 'vp_callback_call(%s)' % em.arg(args[2], None))}, free_calls={
+        'MPI_Comm_rank': (lambda em, n, args, dst: 'vp_mpi_comm_rank(%s, %s)' % (em.emit(args[0]), em.emit(args[1]))),
+        'MPI_Comm_size': (lambda em, n, args, dst: 'vp_mpi_comm_size(%s, %s)' % (em.emit(args[0]), em.emit(args[1])))})),
+    'mpi_multi_channel': dict(unit='mpidrv', name='mpi_multi_channel', sel='vpinst::MCb', allow_unsigned_wrap=True, opts=dict(_DRV_OPTS, rename={'vp_rng_multi_channel_chkpt_copy': 'vp_chk2_copy_abs'},
+        operator_calls={('vpinst_MCb', 'operator()'): (lambda em, n, args, dst: 'vp_callback_call(%s)' % em.arg(args[2], None))}, free_calls={
+        'MPI_Comm_rank': (lambda em, n, args, dst: 'vp_mpi_comm_rank(%s, %s)' % (em.emit(args[0]), em.emit(args[1]))),
+        'MPI_Comm_size': (lambda em, n, args, dst: 'vp_mpi_comm_size(%s, %s)' % (em.emit(args[0]), em.emit(args[1])))})),
     # unsigned wrap allowed in the driver: the positioning arithmetic usage * discard_before(...) is the subject of job c16_tiling (proved wrap-free there)
     'mpi_vegas': dict(unit='mpidrv', name='mpi_vegas', sel='vpinst::VCb', allow_unsigned_wrap=True, opts=dict(_DRV_OPTS, rename={'vp_rng_vegas_chkpt_copy': 'vp_chk2_copy_abs'},
         operator_calls={('vpinst_VCb', 'operator()'): (lambda em, n, args, dst: 'vp_callback_call(%s)' % em.arg(args[2], None))}, free_calls={
@@ -419,6 +429,24 @@ JOBS = [
                              dict(cname='vpinst_Fn', opaque=True), dict(unit='drivers', cls='integrand', cname='integrand'), dict(cname='vpinst_VCb', opaque=True)],
          preludes=['opaque.h'], late_preludes=['stubs_cb2.h'], globals='size_t vp_cb_calls, vp_cb_seen_n; _Bool vp_cb_ret; const void *vp_cb_arg; size_t vp_it_count, vp_it_calls; const void *vp_it_gen; size_t vp_g_done; size_t vp_chk_last_gen, vp_add_calls; const void *vp_add_result; size_t vp_state_calls, vp_setup_calls, vp_setup_arg; const void *vp_state_obj, *vp_it_state, *vp_it_result; ' + _REFGHOST,
          defines=['VP_ITMAX=65536', 'VP_NMAX=1048576'], props=['C04', 'C19', 'C12', 'C07'],
+         trusted=['the callback is a nondeterministic stub (its rank-independence: job mpi_callback)', 'allreduce_result, the iteration, the refinement and the checkpoint are abstract, logged contracts here; discard amounts are job c16_tiling']),
+    dict(name='mpi_plain_driver', functions=['mpi_plain', 'plain_iteration', 'rng_chkpt_plain_result_add', 'rng_chkpt_plain_result_generator', 'integrand_dimensions'],
+         specs=['mpi_plain', 'iteration_abs', 'chkpt_abs'], harness_sections=['mpi_plain'], entry='h_mpi_plain', enforce='mpi_plain',
+         replace=['plain_iteration', 'rng_chkpt_plain_result_add', 'rng_chkpt_plain_result_generator'], stub_bodies=['plain_iteration', 'rng_chkpt_plain_result_add', 'rng_chkpt_plain_result_generator'],
+         structs=_ST_CHK + [dict(cname='vpinst_Fn', opaque=True), dict(unit='drivers', cls='integrand', cname='integrand'), dict(cname='vpinst_PCb', opaque=True)],
+         preludes=['opaque.h'], late_preludes=['stubs_cb.h'], globals='size_t vp_cb_calls, vp_cb_seen_n; _Bool vp_cb_ret; const void *vp_cb_arg; size_t vp_it_count, vp_it_calls; const void *vp_it_gen; size_t vp_g_done; size_t vp_chk_last_gen, vp_add_calls; const void *vp_add_result;',
+         defines=['VP_ITMAX=65536', 'VP_NMAX=1048576'], props=['C04', 'C12'],
+         trusted=['the callback is a nondeterministic stub (its rank-independence: job mpi_callback)', 'allreduce_result, the iteration and the checkpoint are abstract, logged contracts here; discard amounts are job c16_tiling']),
+    dict(name='mpi_multi_channel_driver', functions=['mpi_multi_channel', 'multi_channel_iteration', 'rng_multi_channel_chkpt_add', 'rng_multi_channel_chkpt_generator', 'multi_channel_chkpt_channel_weights', 'multi_channel_chkpt_channels',
+                                                     'multi_channel_integrand_channels', 'integrand_dimensions', 'multi_channel_chkpt_beta', 'multi_channel_chkpt_min_weight', 'multi_channel_result_adjustment_data', 'multi_channel_refine_weights'],
+         specs=['mpi_multi_channel', 'drivers_abs', 'refine_abs'], harness_sections=['mpi_multi_channel'], entry='h_mpi_multi_channel', enforce='mpi_multi_channel',
+         replace=['multi_channel_iteration', 'rng_multi_channel_chkpt_add', 'rng_multi_channel_chkpt_generator', 'multi_channel_chkpt_channel_weights', 'multi_channel_chkpt_channels', 'multi_channel_refine_weights'],
+         stub_bodies=['multi_channel_iteration', 'rng_multi_channel_chkpt_add', 'rng_multi_channel_chkpt_generator', 'multi_channel_chkpt_channel_weights', 'multi_channel_chkpt_channels', 'multi_channel_refine_weights'],
+         structs=_ST_MCHK + [dict(prelude='rngvec.h'), dict(unit='chkpt', cls='chkpt_with_rng', cls_targs_has='multi_channel_chkpt', cname='rng_multi_channel_chkpt'),
+                             dict(cname='vpinst_Fn', opaque=True), dict(unit='drivers', cls='integrand', cname='integrand'), dict(cname='vpinst_Map', opaque=True),
+                             dict(unit='drivers', cls='multi_channel_integrand'), dict(cname='vpinst_MCb', opaque=True)],
+         preludes=['opaque.h'], late_preludes=['stubs_cb2.h'], globals='size_t vp_cb_calls, vp_cb_seen_n; _Bool vp_cb_ret; const void *vp_cb_arg; size_t vp_it_count, vp_it_calls; const void *vp_it_gen; size_t vp_g_done; size_t vp_chk_last_gen, vp_add_calls; const void *vp_add_result; size_t vp_state_calls, vp_setup_calls, vp_setup_arg; const void *vp_state_obj, *vp_it_state, *vp_it_result; ' + _REFGHOST,
+         defines=['VP_ITMAX=65536', 'VP_NMAX=1048576'], props=['C04', 'C19', 'C12', 'C08'],
          trusted=['the callback is a nondeterministic stub (its rank-independence: job mpi_callback)', 'allreduce_result, the iteration, the refinement and the checkpoint are abstract, logged contracts here; discard amounts are job c16_tiling']),
     dict(name='multi_channel_driver', functions=['multi_channel', 'multi_channel_iteration', 'rng_multi_channel_chkpt_add', 'rng_multi_channel_chkpt_generator', 'multi_channel_chkpt_channel_weights', 'multi_channel_chkpt_channels', 'multi_channel_integrand_channels'],
          specs=['multi_channel', 'drivers_abs'], harness_sections=['multi_channel'], entry='h_multi_channel', enforce='multi_channel',
